@@ -225,6 +225,23 @@ def run_structural(pid, tier, seed, prop_module, audit_file, profiles, oracle, p
     })
     c.assumptions += list(note_assumptions)
 
+    # document-level correspondence (cfg-guarded hook in zeep-lib): the model's Doc against the real RustDocument, and the
+    # conclusions of the every-input theorems evaluated on the real document
+    from . import doccorr
+    if model_ok:
+        ndoc, docdis, docstats = doccorr.compare(cases)
+        inv_bad = []
+        for cs in cases:
+            pth = os.path.join(cs["dir"], "doc.impl")
+            if os.path.exists(pth):
+                for what in doccorr.invariants(pth):
+                    inv_bad.append((what, cs))
+        c.cov["document_level"] = {"documents_compared": ndoc, "differing": len(docdis), "outcomes": docstats,
+                                   "theorem_conclusions_violated_on_the_real_document": len(inv_bad)}
+        for cs, d in docdis:
+            corr_fail.append((cs, "RustDocument: " + d, "(document-level dump differs)"))
+        for what, cs in inv_bad[:3]:
+            oracle_fail.append(("document-invariant", f"the document the real reader returns violates a proved invariant of the model: {what}", cs))
     cf, ncorpus = corpus_failures()
     oracle_fail += cf
     c.cov["targeted_corpus"] = {"cases": ncorpus, "differ_from_reviewed_golden": len(cf)}
